@@ -5,7 +5,12 @@
 (* A state is one complete project description.                                    *)
 EXTENDS Ast, TLC, Json, FiniteSets
 
-CONSTANTS MaxMods, MinMods, Spells, Places
+CONSTANTS MaxMods, MinMods, Spells, Places, Layouts
+
+(* layout k > 0: the modules k..n live in the sub-directory `sub/` (they are imported as `sub/m` from the top level and as
+   `m` from each other; a module in `sub/` cannot import upwards: `..` does not parse); layout 0: one directory *)
+NoSub == {0}
+AllLayouts == 0..5
 
 Forms == {"mod", "names", "type"}
 AllSpells == {"plain", "dotslash"}
@@ -13,7 +18,7 @@ AllPlaces == {"early", "late"}
 OnePlain == {"plain"}
 OneEarly == {"early"}
 
-VARIABLE pr      \* [n, edges : set of <<i, j>>, form, spell, place : functions on edges, bare : set of modules]
+VARIABLE pr      \* [n, edges : set of <<i, j>>, form, spell, place : functions on edges, bare : set of modules, lay]
 Mods(n) == 1..n
 AllEdges(n) == {e \in Mods(n) \X Mods(n) : e[1] < e[2]}
 (* every module except the entry has an importer *)
@@ -21,10 +26,10 @@ Connected(n, E) == \A j \in 2..n : \E i \in 1..(j - 1) : <<i, j>> \in E
 
 Init == \E n \in MinMods..MaxMods : \E E \in SUBSET AllEdges(n) :
           /\ Connected(n, E)
-          /\ \E f \in [E -> Forms], sp \in [E -> Spells], pl \in [E -> Places], bare \in SUBSET (2..(n - 1)) :
+          /\ \E f \in [E -> Forms], sp \in [E -> Spells], pl \in [E -> Places], bare \in SUBSET (2..(n - 1)), lay \in Layouts \cap (({0} \cup (2..n))) :
                \* a "bare" module exports nothing: it can only be imported as a whole
                /\ \A e \in E : e[2] \in bare => f[e] \in {"mod", "type"}
-               /\ pr = [n |-> n, edges |-> E, form |-> f, spell |-> sp, place |-> pl, bare |-> bare]
+               /\ pr = [n |-> n, edges |-> E, form |-> f, spell |-> sp, place |-> pl, bare |-> bare, lay |-> lay]
 Next == UNCHANGED pr
 
 -----------------------------------------------------------------------------
@@ -38,7 +43,8 @@ RECURSIVE Ascending(_, _)
 Ascending(Zs, lo) == IF {x \in Zs : x >= lo} = {} THEN <<>>
                      ELSE LET m == CHOOSE x \in Zs : x >= lo /\ \A y \in Zs : y >= lo => x <= y IN <<m>> \o Ascending(Zs, m + 1)
 
-Path(i, j) == (IF pr.spell[<<i, j>>] = "dotslash" THEN "./" ELSE "") \o MName(j)
+InSub(k) == pr.lay # 0 /\ k >= pr.lay
+Path(i, j) == (IF pr.spell[<<i, j>>] = "dotslash" THEN "./" ELSE "") \o (IF InSub(j) /\ ~InSub(i) THEN "sub/" ELSE "") \o MName(j)
 ImportOf(i, j) ==
     IF pr.form[<<i, j>>] = "mod" THEN [k |-> "import", form |-> "mod", path |-> Path(i, j), names |-> <<>>]
     ELSE IF pr.form[<<i, j>>] = "type" THEN [k |-> "import", form |-> "type", path |-> Path(i, j), names |-> <<TName(j)>>]
@@ -87,7 +93,7 @@ ModBody(i) ==
                 e |-> Fn("peek", <<>>, "int", <<Ret(Bin("+", V("val"), I(1)))>>)]>>)
          \o <<Tag(i, "end")>>
 
-Project == [entry |-> 1, mods |-> [i \in 1..pr.n |-> [name |-> MName(i), body |-> ModBody(i)]]]
+Project == [entry |-> 1, mods |-> [i \in 1..pr.n |-> [name |-> MName(i), dir |-> (IF InSub(i) THEN "sub/" ELSE ""), body |-> ModBody(i)]]]
 
 EdgeList == LET RECURSIVE L(_, _)
                 L(i, acc) == IF i > pr.n THEN acc
@@ -97,6 +103,6 @@ EdgeList == LET RECURSIVE L(_, _)
             IN L(1, <<>>)
 
 BareList == [k \in 1..pr.n |-> k \in pr.bare]
-EmitLight == ~NamesClash => PrintT("CASE " \o ToJson([n |-> pr.n, edges |-> EdgeList, bare |-> BareList]))
-EmitCase == ~NamesClash => PrintT("CASE " \o ToJson([n |-> pr.n, edges |-> EdgeList, bare |-> BareList, prog |-> Project]))
+EmitLight == ~NamesClash => PrintT("CASE " \o ToJson([n |-> pr.n, edges |-> EdgeList, bare |-> BareList, lay |-> pr.lay]))
+EmitCase == ~NamesClash => PrintT("CASE " \o ToJson([n |-> pr.n, edges |-> EdgeList, bare |-> BareList, lay |-> pr.lay, prog |-> Project]))
 =============================================================================
